@@ -478,6 +478,10 @@ func (t *Transport) RoundTripOpt(req *http.Request, opt RoundTripOpt) (*http.Res
 		cc, err = t.connPool().GetClientConn(req, addr, true)
 		if err != nil {
 			t.vlogf("http2: Transport failed to get client conn for %s: %v", addr, err)
+			// RoundTrip must always close the body, including on errors
+			if req.Body != nil {
+				req.Body.Close()
+			}
 			return nil, err
 		}
 		reused := !atomic.CompareAndSwapUint32(&cc.reused, 0, 1)
